@@ -11,9 +11,11 @@ ASSUME = [
     "per alert ID the times of the points (stream) / batches are non-decreasing; overlapping batch windows (period > every) are not explored",
     "every point carries every field the lambdas read; errors the task reports anyway are recorded (nerr/nerrc on the Reset lines, node_errors_reported) and the outputs are judged as usual; a missing field is C04/C05 territory",
     "task restarts (same daemon, topic kept in memory) are explored only where the topic's memory is the true state: no flapping, recoveries delivered; restart from persisted storage / crash points is C08; no inhibitors; one group per alert ID",
-    "with flapping() the documentation fixes the hysteresis on a percentage of state changes but not the weighting: at verdict level the suppression of an event is left open unless the recorded history (last `history` levels) contains no state change",
+    "with flapping() the documentation fixes the hysteresis on a percentage of state changes but not the weighting: at verdict level the suppression of a NON-OK event is left open unless the recorded history (last `history` levels) contains no state change; a return to OK is always due (a withheld recovery is never made up for) - the stream form's deviation from that is the listed known finding stream-flapping-recovery-withheld",
+    "stateful reset conditions are explored as count() >= k in stream form without filters; 'for each point an expression may or may not be evaluated' (docs): the ID's count is judged within [times the reset had to be consulted, number of the ID's own points], never anything of another ID",
+    "delivery: the named topic's own handler queue never fills (stuck-handler scenario: rounds with exact waits on the alert package's enq/done hooks); a full queue of an INLINE handler is the explored fault",
     "batch event time: the documentation says 'time of the point that triggered the event'; accepted = a point of the batch that has the event's level, or the batch time for all() and for recoveries",
-    "handler buffers (65536 events) never fill: a chunk offers fewer steps than that and any collect error aborts the check (exit 2)",
+    "outside the stuck-handler scenario handler buffers (65536 events) never fill: a chunk offers fewer steps than that and any collect error aborts the check (exit 2)",
     "message/details templates are the defaults; their rendering is not compared",
     "TLC fingerprint collisions are negligible; the libflux link stub is never executed",
 ]
@@ -21,6 +23,15 @@ ASSUME = [
 # many trace validations run side by side (and next to other checks): keep each JVM small
 JVM_SMALL = {"JAVA_TOOL_OPTIONS": "-Xmx1500m -XX:ParallelGCThreads=2"}
 JVM_MC = {"JAVA_TOOL_OPTIONS": "-Xmx4g -XX:ParallelGCThreads=4"}
+
+# (cfg, invariant that must be violated, the named deviation of Impl it runs with)
+OBSERVATIONS = [
+    ("AlertNode_prefix.cfg", "EventCarries", "code before fix c143191: duration after a flapping-suppressed entry into non-OK"),
+    ("AlertNode_prerestore.cfg", "EventCarries", "code before fix 06befa5: durations restart from the last event after a task restart"),
+    ("AlertNode_obs_batchflap.cfg", "EmitIff", "the batch form shares the stream's emission test: a recovery during flapping is never reported"),
+    ("AlertNode_obs_sharedreset.cfg", "LevelRule", "reset expressions evaluated on the node's shared copy: one ID's level depends on other IDs' points"),
+    ("AlertNode_obs_collecterr.cfg", "NamedDelivery", "an error collecting for the anonymous topic keeps the event from the named topic"),
+]
 
 
 def model_check(sc, cfg, workers=16, timeout=2400, expect_violation=None):
@@ -142,15 +153,13 @@ def run(sc, tier, seed):
     # design level: Impl (code-shaped) against Ref (documented machine) for every input sequence within the bounds
     cfg = "AlertNode_quick.cfg" if tier == "quick" else "AlertNode_thorough.cfg"
     R.add_model(model_check(sc, cfg))
-    # observation: Impl as it was before fix c143191 must still show the EventCarries counterexample
-    # (duration after a flapping-suppressed entry into non-OK) - the invariant is not vacuous
-    obs = model_check(sc, "AlertNode_prefix.cfg", workers=4, timeout=600, expect_violation={"EventCarries"})
-    if obs["violated"] != "EventCarries":
-        raise V.Broken("AlertNode_prefix.cfg no longer yields the EventCarries counterexample: the invariant has become vacuous")
-    # same for the restore as it was before fix 06befa5 (durations restarted from the last event after a task restart)
-    obs = model_check(sc, "AlertNode_prerestore.cfg", workers=4, timeout=600, expect_violation={"EventCarries"})
-    if obs["violated"] != "EventCarries":
-        raise V.Broken("AlertNode_prerestore.cfg no longer yields the EventCarries counterexample: the Restart action has become vacuous")
+    # observations: named deviations of Impl (constant Variant) must each break "their" invariant on every
+    # run - no invariant is vacuous, and the model can express each of the seeded / repaired defects
+    with concurrent.futures.ThreadPoolExecutor(max_workers=3) as ex:
+        results = list(ex.map(lambda o: (o, model_check(sc, o[0], workers=2, timeout=600, expect_violation={o[1]})), OBSERVATIONS))
+    for (ocfg, inv, what), res in results:
+        if res["violated"] != inv:
+            raise V.Broken("%s no longer yields the %s counterexample (%s): the invariant has become vacuous" % (ocfg, inv, what))
     # B1: systematic + seeded random sequences through real tasks, every step validated by TLC
     out, meta = V.run_driver(sc, "c01", tier, seed, timeout=3000)
     R.add_meta(meta)
